@@ -22,7 +22,7 @@ import (
 	"github.com/gethiox/HIDI/internal/verif/vutil"
 )
 
-var aliens = []string{`"str"`, `7`, `-1`, `18446744073709551616`, `1.5`, `inf`, `nan`, `true`, `1979-05-27`, `07:32:00`,
+var aliens = []string{`"str"`, `7`, `-1`, `18446744073709551616`, `9223372036854775807`, `-9223372036854775808`, `4294967296`, `2147483648`, `1.5`, `inf`, `nan`, `true`, `1979-05-27`, `07:32:00`,
 	`1979-05-27T07:32:00Z`, `1979-05-27T07:32:00`, `[]`, `[1]`, `["a"]`, `{}`, `{a=1}`, `""`, `0x10`, `'lit'`, `[[1]]`, `{type="cc"}`}
 
 func init() {
@@ -389,9 +389,9 @@ func main() {
 			time.Sleep(5 * time.Second)
 			now := time.Now().UnixNano()
 			for w := 0; w < nw; w++ {
-				if b := busy[w].Load(); b != 0 && now-b > int64(120*time.Second) {
+				if b := busy[w].Load(); b != 0 && now-b > int64(30*time.Second) {
 					in, _ := busyName[w].Load().(input)
-					res.Violate("parse-hangs", in.name, "config.ParseData did not return within 120 s (normal cost: microseconds)", map[string]interface{}{"input_name": in.name, "content": string(in.data)})
+					res.Violate("parse-hangs", in.name, "config.ParseData did not return within 30 s (normal cost: microseconds)", map[string]interface{}{"input_name": in.name, "content": string(in.data)})
 					res.Exhaustive = false
 					res.Write(*out)
 					os.Exit(0)
